@@ -18,8 +18,9 @@ JOBS.append(Job('wt.t1.P3', 'C05/work_thread.cpp', 'h_wt', 'B', opts={'preempt':
 META = dict(
     explanation='The real eventx/thread_pool.cpp (execute / getTaskStatus / cancel / cleanup / threadProc / createWorker / popOneTask with Cabinet and ObjectPool) runs under engine/symir.py\'s thread scheduler (see C10): all interleavings at synchronisation granularity within the preemption bound, '
                 'deadlock detection (a worker sleeping forever makes cleanup() hang in join), vector-clock data-race detection with a second pass that turns racy accesses into scheduling points. The loop thread submits tasks, optionally queries the status or cancels task 0 and then calls cleanup(); ghost counters check at-most-once execution, never on the loop thread, completion callback once and after the body, '
-                'cancel==0 implies never run, kExecuting implies completes, kNotFound implies finished or never runs.',
-    bounds='(min,max) workers (1,1) and (0,1) with one task and preemption bound 2 in the quick tier; (1,2) with two tasks of symbolic priority (bound 1) and bound 3 in the thorough tier',
-    outside='more than 2 workers / 2 tasks; WorkThread (same pattern, not encoded separately); priority/FIFO order among many waiting tasks; real timing',
+                'cancel==0 implies never run, kExecuting implies completes, kNotFound implies finished or never runs.'
+                ' Extended: WorkThread gets the same harnesses (one task vs status/cancel/cleanup under all schedules within the bound, race and deadlock detection; FIFO with any one of 4 waiting tasks cancelled); a strict oracle compares every not-found answer with what had happened at that moment; three waiting tasks with symbolic priorities in [-3,3] (out-of-range values are clamped) run by (priority, submission order); with min 0 / max 1 a task submitted while the only worker retires is still executed.',
+    bounds='(min,max) workers (1,1) and (0,1) with one task and preemption bound 2 in the quick tier; (1,2) with two tasks of symbolic priority (bound 1) and bound 3 in the thorough tier; WorkThread: 1 task, preemption bound 2 (3 thorough); FIFO 4 waiting tasks; priority: 3 tasks; retire: 2 sequential tasks, bound 2',
+    outside='more than 2 workers; more than 4 waiting tasks; real timing',
     assumptions=['pthread / condition-variable semantics as modelled by the engine', 'the fake main loop protects its queue with a mutex like the real one'],
     trusted_base=['clang++-14 -O1 IR', 'engine/symir.py thread scheduler and race detector', 'z3'])
